@@ -30,6 +30,8 @@ RULE = ("Angle histories (1..60 frames quick, up to 500 thorough) are built step
         "alternating / first-only / last-only / run-length / random rows, presented as 1-D (contiguous or strided "
         "column, int16/32/64), 2-D (C/F order) and RaggedArray; oracle: literal python loop per row; non-trivial when a "
         "row without any transition coexists with a row with >= 2 transitions (1-D: >= 2 transitions, one at frame 0 "
+        "[featurizer clause: RotamerFeaturizer.fit on 1..4 pieces of the test trajectory as list/tuple/generator, one "
+        "reference machine per trajectory; non-trivial when a machine over the joined series would differ] "
         "or at the last frame pair). distinct = distinct canonical JSON of the case.")
 ASSUMPTIONS = [
     "angle sequences are non-empty, every angle is in [0, 360) and at distance >= 1e-6 (1e-3 for float32 input) from "
